@@ -341,14 +341,14 @@ func perturbAddr(a []byte, op string, other uint32) {
 
 // layout locates the parts of a reply.
 type layout struct {
-	v        int
-	ihl      int // outer header length
-	l4       int // offset of outer L4
-	isICMP   bool
-	q        int // offset of quoted IP header (ICMP errors), -1 otherwise
-	qihl     int
-	ql4      int // offset of quoted L4
-	qproto   uint8
+	v      int
+	ihl    int // outer header length
+	l4     int // offset of outer L4
+	isICMP bool
+	q      int // offset of quoted IP header (ICMP errors), -1 otherwise
+	qihl   int
+	ql4    int // offset of quoted L4
+	qproto uint8
 }
 
 func locate(b []byte) (layout, error) {
